@@ -132,6 +132,8 @@ def rule_text(r):
     pre = "suspended " if r.get("suspended") else ""
     if r["kind"] == "set":
         return pre + ("relative:%d:set:%s:%d" % (r["period"], r["obj"], r["val"]) if r.get("period") else "absolute:%d:set:%s:%d" % (r["tick"], r["obj"], r["val"]))
+    if r["kind"] == "get":
+        return pre + ("relative:%d:get:%s:unsigned" % (r["period"], r["obj"]) if r.get("period") else "absolute:%d:get:%s:unsigned" % (r["tick"], r["obj"]))
     if r["when"] == "abs":
         return pre + "absolute:%d:show:%s:unsigned" % (r["tick"], r["obj"])
     if r["when"] == "rel":
@@ -144,8 +146,8 @@ def sb_rule(r):
     if r["kind"] == "set":
         return {"Timec": 2 if r.get("period") else 0, "Tick": r.get("period") or r["tick"], "Action": 0, "Object": r["obj"], "Extra": str(r["val"]),
                 "Suspended": bool(r.get("suspended"))}
-    return {"Timec": T[r["when"]], "Tick": r.get("period") or r.get("tick") or 0, "Action": 2, "Object": r["obj"], "Extra": "unsigned",
-            "Suspended": bool(r.get("suspended"))}
+    return {"Timec": T[r["when"]], "Tick": r.get("period") or r.get("tick") or 0, "Action": 1 if r["kind"] == "get" else 2, "Object": r["obj"],
+            "Extra": "unsigned", "Suspended": bool(r.get("suspended"))}
 
 
 def object_value(snap, obj):
@@ -169,8 +171,8 @@ def coq_rule(r):
         return "(mkRule %s %d%%N ASet %s %s %s)" % ("TRel" if r.get("period") else "TAbs", r.get("period") or r["tick"], C.cq_string(r["obj"]),
                                                     C.cq_string(str(r["val"])), C.cq_bool(bool(r.get("suspended"))))
     T = {"abs": "TAbs", "rel": "TRel", "onvalid": "TOnValid", "onexit": "TOnExit"}
-    return "(mkRule %s %d%%N AShow %s %s %s)" % (T[r["when"]], r.get("period") or r.get("tick") or 0, C.cq_string(r["obj"]), C.cq_string("unsigned"),
-                                                 C.cq_bool(bool(r.get("suspended"))))
+    return "(mkRule %s %d%%N %s %s %s %s)" % (T[r["when"]], r.get("period") or r.get("tick") or 0, "AGet" if r["kind"] == "get" else "AShow", C.cq_string(r["obj"]),
+                                                 C.cq_string("unsigned"), C.cq_bool(bool(r.get("suspended"))))
 
 
 SIMRUN_HDR = ("From Coq Require Import String NArith List Bool.\nFrom BM Require Import Front.Simbox Front.SimRun Front.SimRunCheck.\n"
@@ -221,6 +223,23 @@ def dynamic_shows(res, rnd, a):
             elif w == "onvalid":
                 r["obj"] = "o0"
             rules.append(r)
+        # get rules (they feed the report file, not the printed lines) on some of the same objects, mixed among the others
+        for _ in range(rnd.randint(0, 2)):
+            g = {"kind": "get", "when": rnd.choice(["abs", "rel"]), "obj": rnd.choice(objs)}
+            if g["when"] == "abs":
+                g["tick"] = rnd.randrange(ticks)
+            else:
+                g["period"] = rnd.choice([1, 2, 3])
+            rules.insert(rnd.randrange(len(rules) + 1), g)
+        # every other case: a periodic show whose object also has a get rule, behind a show rule of another object (the numbering of the
+        # reported objects and of the shown objects are separate)
+        rel_shows = [r for r in rules if r["kind"] == "show" and r["when"] == "rel"]
+        if k % 2 == 0 and rel_shows:
+            r0 = rel_shows[0]
+            other = rnd.choice([o for o in objs if o != r0["obj"]])
+            j = rules.index(r0)
+            rules.insert(j, {"kind": "get", "when": "rel", "obj": r0["obj"], "period": rnd.choice([1, 2])})
+            rules.insert(0, {"kind": "show", "when": "abs", "obj": other, "tick": rnd.randrange(ticks)})
         for r in rules:
             r["suspended"] = rnd.random() < 0.2
         stop = rnd.random() < 0.5          # -sim-stop-on-valid-of 0: the run ends when o0 is valid at the start of an iteration
@@ -270,6 +289,8 @@ def dynamic_shows(res, rnd, a):
                     hist["suspended"] += 1
                 elif r["kind"] == "set":
                     hist["rel_set" if r.get("period") else "abs_set"] += 1
+                elif r["kind"] == "get":
+                    hist["get"] = hist.get("get", 0) + 1
                 else:
                     hist[{"abs": "abs_show", "rel": "rel_show", "onvalid": "onvalid_show", "onexit": "onexit_show"}[r["when"]]] += 1
             hist["stop_on_valid"] += int(stop)
